@@ -51,5 +51,49 @@ pub mod builder {
         //@end
     }
 }
+pub mod term_conv {
+    // token/builder/term.rs: conversion of a Datalog date (u64 seconds, from token contents) into a SystemTime
+    use vstd::prelude::*;
+    use std::collections::{BTreeMap, BTreeSet};
+    use std::ops::Add;
+    #[verifier::external_body] pub struct TokenError { _p: u8 }
+    pub mod error { pub use super::TokenError as Token; }
+    // what the message-building arm returns (R4 drops the text)
+    #[verifier::external_body] pub fn verif_conversion_error() -> TokenError { unimplemented!() }
+    //@extract biscuit-auth/src/token/builder/term.rs :: enum Term
+    //@end
+    //@extract biscuit-auth/src/token/builder/term.rs :: enum MapKey
+    //@end
+    // ASSUMED model of std::time: seconds since the epoch; `SystemTime + Duration` PANICS when the result is not
+    // representable (i64 seconds on the supported platforms), checked_add returns None instead
+    pub const MAX_TIME_SECS: u64 = 9223372036854775807;
+    pub struct Duration { pub secs: u64 }
+    impl Duration { #[verifier::external_body] pub fn from_secs(s: u64) -> (r: Duration) ensures r.secs == s { unimplemented!() } }
+    #[derive(Clone, Copy)]
+    pub struct SystemTime { pub secs: u64 }
+    pub const UNIX_EPOCH: SystemTime = SystemTime { secs: 0 };
+    impl vstd::std_specs::ops::AddSpecImpl<Duration> for SystemTime {
+        open spec fn obeys_add_spec() -> bool { true }
+        open spec fn add_req(self, rhs: Duration) -> bool { self.secs + rhs.secs <= MAX_TIME_SECS }
+        open spec fn add_spec(self, rhs: Duration) -> SystemTime { SystemTime { secs: (self.secs + rhs.secs) as u64 } }
+    }
+    impl Add<Duration> for SystemTime { type Output = SystemTime; #[verifier::external_body] fn add(self, rhs: Duration) -> SystemTime { unimplemented!() } }
+    impl SystemTime {
+        #[verifier::external_body]
+        pub fn checked_add(&self, d: Duration) -> (r: Option<SystemTime>)
+            ensures r == (if self.secs + d.secs <= MAX_TIME_SECS { Some(SystemTime { secs: (self.secs + d.secs) as u64 }) } else { None::<SystemTime> })
+        { unimplemented!() }
+    }
+    impl SystemTime {
+        //@extract biscuit-auth/src/token/builder/term.rs :: impl TryFrom<Term> for SystemTime :: fn try_from
+        //@ id token::builder::term::SystemTime::TryFrom::try_from
+        //@ sub error::Token::ConversionError\(verif_msg\(\)\) => verif_conversion_error()
+        //@ sub Result<Self, Self::Error> => Result<Self, error::Token>
+        //@ ensures date: value is Date && value->Date_0 <= MAX_TIME_SECS ==> r is Ok && r->Ok_0.secs == value->Date_0
+        //@ ensures other: !(value is Date) ==> r is Err
+        //@end
+    }
+}
+//@canary date-unchecked-add :: token::builder::term::SystemTime::TryFrom::try_from :: Term::Date(d) => UNIX_EPOCH\n                .checked_add(Duration::from_secs(d)) ==>> Term::Date(d) => Some(UNIX_EPOCH + Duration::from_secs(d))
 } // verus!
 fn main() {}
